@@ -1,67 +1,435 @@
-// c07: exploration stub (replaced below by the full harness).
+// c07: oracle and correspondence for C07 (every generated configuration is loadable).
+//
+// Oracle (no model): histories run through the REAL controller pipeline (lib/pipeline);
+// after every reconciliation the files written are scanned RAW (lib/c07 Scan) into the
+// reference structure and analysed (lib/c07 Check): dangling / duplicated backend
+// references (use_backend, default_backend, map values, auth-intercept helper backends),
+// userlists, map / crt-list / certificate files, server names / ids, use-server, path ids,
+// auth-proxy ports. A failing history is shrunk (delta debugging) and keyed by its cause.
+// The three generators of names / ids / ports are also driven directly on the real types
+// (lib/c07 units.go) with their own direct oracles.
+//
+// Correspondence: every scanned structure is printed as a Coq term and the verified
+// checker `wellformed` is evaluated on it inside Coq (it must agree with the Go analysis:
+// true everywhere on a tree without findings); the generator models are compared with
+// what the real types produced.
 package main
 
 import (
-	"flag"
+	"encoding/json"
 	"fmt"
-	"math/rand"
 	"os"
+	"path/filepath"
+	"regexp"
+	"sort"
 	"strings"
 
 	"verif/harness/lib/c07"
+	"verif/harness/lib/hx"
 	"verif/harness/lib/pipeline"
 	"verif/harness/lib/world"
 )
 
-func main() {
-	seed := flag.Int64("seed", 1, "")
-	n := flag.Int("n", 20, "")
-	dump := flag.Bool("dump", false, "")
-	flag.Parse()
-	rng := rand.New(rand.NewSource(*seed))
-	kinds := map[string]int{}
-	for i := 0; i < *n; i++ {
-		o, h := c07.GenHistory(rng, 1+rng.Intn(4))
-		dir := fmt.Sprintf("/verif/.work/c07x/p%d", i)
-		os.RemoveAll(dir)
-		p, err := pipeline.NewE(o.Pipeline(dir))
-		if err != nil {
-			panic(err)
-		}
-		for bi, b := range h {
-			err := p.Apply(b)
-			if err != nil {
-				fmt.Println("apply error:", err)
-				kinds["apply-error"]++
-			}
-			cfg, err := c07.Scan(p.Dir(), p.Prefix())
-			if err != nil {
-				panic(err)
-			}
-			fs := c07.Check(cfg)
-			for _, f := range fs {
-				kinds[f.Kind]++
-			}
-			if len(fs) > 0 {
-				fmt.Printf("== history %d batch %d opt %+v\n", i, bi, o)
-				for _, f := range fs {
-					fmt.Println("   ", f.Kind, ":", f.What)
-				}
-				for bj, bb := range h[:bi+1] {
-					var parts []string
-					for _, c := range bb {
-						parts = append(parts, c.Op.String()+" "+world.Key(c.Obj))
-					}
-					fmt.Printf("   batch %d: %s\n", bj, strings.Join(parts, "; "))
-				}
-			}
-			if *dump && bi == len(h)-1 {
-				b, _ := os.ReadFile(p.CfgDir() + "/haproxy.cfg")
-				fmt.Println(string(b))
-				fmt.Printf("%+v\n", cfg)
-			}
-		}
-		p.Close()
+var workdir string
+
+// state is what was observed after one batch.
+type state struct {
+	cfg      *c07.Cfg
+	findings []c07.Finding
+	applyErr error
+	scanErr  error
+}
+
+var runSeq int
+
+// run applies the history and returns the state after every batch.
+func run(o c07.Opt, h [][]pipeline.Change, upto int) ([]state, error) {
+	runSeq++
+	dir := filepath.Join(workdir, fmt.Sprintf("p%d", runSeq))
+	os.RemoveAll(dir)
+	p, err := pipeline.NewE(o.Pipeline(dir))
+	if err != nil {
+		return nil, err
 	}
-	fmt.Println(kinds)
+	defer p.Close()
+	var out []state
+	for i, b := range h {
+		if upto >= 0 && i > upto {
+			break
+		}
+		st := state{}
+		st.applyErr = p.Apply(b)
+		st.cfg, st.scanErr = c07.Scan(p.Dir(), p.Prefix())
+		if st.scanErr == nil {
+			st.findings = c07.Check(st.cfg)
+		}
+		out = append(out, st)
+	}
+	return out, nil
+}
+
+func describe(h [][]pipeline.Change) []string {
+	var out []string
+	for i, b := range h {
+		var parts []string
+		for _, c := range b {
+			s := fmt.Sprintf("%s %s", c.Op, world.Key(c.Obj))
+			if a := c.Obj.GetAnnotations(); len(a) > 0 && c.Op != pipeline.Delete {
+				var ks []string
+				for k, v := range a {
+					ks = append(ks, strings.TrimPrefix(k, "haproxy-ingress.github.io/")+"="+v)
+				}
+				sort.Strings(ks)
+				s += " {" + strings.Join(ks, ", ") + "}"
+			}
+			parts = append(parts, s)
+		}
+		out = append(out, fmt.Sprintf("batch %d: %s", i, strings.Join(parts, "; ")))
+	}
+	return out
+}
+
+var (
+	reBackend = regexp.MustCompile(`\bns\d_[A-Za-z0-9-]+_[A-Za-z0-9]+\b`)
+	reNum     = regexp.MustCompile(`\d+`)
+)
+
+// keyOf names the cause of a finding. The kind is the class of broken reference; the
+// detail generalises names (backends, numbers) away so that the key is stable across
+// seeds while two different causes never share a key.
+func keyOf(f c07.Finding) string {
+	detail := ""
+	switch f.Kind {
+	case "dangling-map-backend":
+		// which map family, and whether the value is empty
+		m := regexp.MustCompile(`(_front_[a-z_]+?|_tcp_[a-z_]+?|_back_[^ ]*?)(__[a-z_0-9]+)?\.map`).FindStringSubmatch(f.What)
+		if m != nil {
+			detail = reNum.ReplaceAllString(m[1], "N")
+		}
+		if strings.Contains(f.What, `names backend ""`) {
+			detail += ":empty-value"
+		}
+	case "dangling-use-backend", "dangling-default-backend", "dangling-auth-backend", "duplicate-backend-section":
+		w := strings.SplitN(f.What, ":", 2)[0] // "<kind> <section name>"
+		w = reBackend.ReplaceAllString(w, "<backend>")
+		detail = strings.ReplaceAll(reNum.ReplaceAllString(w, "N"), " ", "-")
+	}
+	if detail != "" {
+		return "C07/" + f.Kind + ":" + detail
+	}
+	return "C07/" + f.Kind
+}
+
+func hasKey(fs []c07.Finding, key string) (c07.Finding, bool) {
+	for _, f := range fs {
+		if keyOf(f) == key {
+			return f, true
+		}
+	}
+	return c07.Finding{}, false
+}
+
+type genInput struct {
+	Kind  string          `json:"kind"` // scenario | names | paths | auth
+	Scen  *c07.Scenario   `json:"scenario,omitempty"`
+	Names *c07.NamesInput `json:"names,omitempty"`
+	Paths *c07.PathsInput `json:"paths,omitempty"`
+	Auth  *c07.AuthInput  `json:"auth,omitempty"`
+}
+
+type scen struct {
+	opt    c07.Opt
+	h      [][]pipeline.Change
+	origin string
+}
+
+func features(c *c07.Cfg, res *hx.Result) (nontrivial bool) {
+	backs, dynvals := 0, 0
+	vals := map[string]int{}
+	for _, m := range c.Maps {
+		vals[m.Name] = len(m.Entries)
+	}
+	for _, s := range c.Sections {
+		if s.Kind == "backend" || s.Kind == "listen" {
+			backs++
+		}
+		if len(s.Userlists) > 0 {
+			res.Count("state_with_http_auth_userlist")
+		}
+		if len(s.AuthBack) > 0 {
+			res.Count("state_with_auth_intercept_in_" + s.Kind)
+		}
+		if len(s.IDsUsed) > 0 {
+			res.Count("state_with_path_id_acl")
+		}
+		if len(s.UseServer) > 0 {
+			res.Count("state_with_use_server")
+		}
+		if s.Templates > 0 {
+			res.Count("state_with_server_template")
+		}
+		for _, sv := range s.Servers {
+			if sv.ID != 0 {
+				res.Count("state_with_server_id")
+				break
+			}
+		}
+		for _, sv := range s.Servers {
+			if !regexp.MustCompile(`^srv\d+$`).MatchString(sv.Name) && s.Kind == "backend" && !strings.HasPrefix(s.Name, "_") {
+				res.Count("state_with_pod_or_ip_server_names")
+				break
+			}
+		}
+		if strings.HasPrefix(s.Name, "_front_tcp_") {
+			res.Count("state_with_tcp_service_frontend")
+		}
+		if strings.HasPrefix(s.Name, "_tcp_") {
+			res.Count("state_with_tcp_configmap_listen")
+		}
+		if s.Name == "_front__tls" {
+			res.Count("state_with_ssl_passthrough")
+		}
+		for _, d := range s.Default {
+			if d == "_error404" {
+				res.Count("default_backend=_error404")
+			} else {
+				res.Count("default_backend=service")
+			}
+			break
+		}
+		for _, d := range s.UseDyn {
+			for _, m := range d.Maps {
+				dynvals += vals[m]
+			}
+		}
+		if len(s.Files) > 0 && s.Kind == "backend" {
+			res.Count("state_with_backend_cert_files")
+		}
+	}
+	if len(c.AuthBinds) > 0 {
+		res.Count(fmt.Sprintf("state_with_auth_proxy_binds=%d", len(c.AuthBinds)))
+	}
+	for _, cl := range c.CrtLists {
+		if len(cl.Files) > 1 {
+			res.Count("state_with_host_certificates_or_ca")
+			break
+		}
+	}
+	return backs >= 2 && dynvals >= 1
+}
+
+func main() {
+	o := hx.Parse()
+	workdir = filepath.Join(o.Out, "scratch")
+	os.MkdirAll(workdir, 0o755)
+	defer os.RemoveAll(workdir)
+	rng := o.Rng()
+	res := hx.NewResult("C07", "oracle + checker: histories (corpus of past failures, a dedicated generator: missing services/secrets, services without endpoints, ssl-passthrough, basic/external/oauth auth, TCP services by annotation and ConfigMap, strict-host, absent/missing/deleted default backend, pod/ip server naming with pods named like empty slots, blue/green, server ids, per-path ACL features, secure backends, client certs, tiny auth-proxy ranges, shards; and lib/world Full() histories) through the real watchers+converter+instance; after EVERY reconciliation the written files are scanned raw and analysed (Go) and the structure is checked by `wellformed` inside Coq; plus direct runs of AddEndpoint/AddEmptyEndpoint, AddBackendPath, AcquireAuthBackendName/RemoveAuthBackend* on the real types compared with their models; non-trivial = a written configuration with at least two backend sections and one map value feeding a dynamic use_backend, or a generator case with at least 3 calls; distinct by canonical text of the scanned structure / of the calls")
+	cw := hx.NewCaseWriter(o, res, "From HI Require Import Corr.Corr_C07.", "c07case", 24)
+
+	var scens []scen
+	var units []genInput
+	if o.Replay != "" {
+		var in genInput
+		hx.ReadReplay(o.Replay, &in)
+		if in.Kind == "" || in.Kind == "scenario" {
+			if in.Scen == nil {
+				// a bare scenario
+				var sc c07.Scenario
+				hx.ReadReplay(o.Replay, &sc)
+				in.Scen = &sc
+			}
+			scens = append(scens, scen{in.Scen.Opt, world.DecodeHistory(in.Scen.History), "replay"})
+		} else {
+			units = append(units, in)
+		}
+	} else {
+		files, _ := filepath.Glob("/verif/corpus/C07/*.json")
+		sort.Strings(files)
+		for _, f := range files {
+			var in genInput
+			hx.ReadReplay(f, &in)
+			if in.Kind == "scenario" && in.Scen != nil {
+				scens = append(scens, scen{in.Scen.Opt, world.DecodeHistory(in.Scen.History), "corpus:" + filepath.Base(f)})
+			} else if in.Kind != "" {
+				units = append(units, in)
+			}
+		}
+		nDed := o.Count(150, 6000)
+		nWorld := o.Count(50, 2000)
+		if o.Search {
+			nDed, nWorld = o.Count(1500, 12000), o.Count(300, 3000)
+		}
+		for i := 0; i < nDed; i++ {
+			op, h := c07.GenHistory(rng, 1+rng.Intn(4))
+			scens = append(scens, scen{op, h, "dedicated"})
+		}
+		for i := 0; i < nWorld; i++ {
+			op := c07.Opt{}
+			if i%2 == 0 {
+				op.DefaultService = "ns1/svc1"
+			}
+			scens = append(scens, scen{op, world.GenHistory(rng, world.Full(), 1+rng.Intn(4), 3), "world"})
+		}
+		nUnit := o.Count(400, 20000)
+		for i := 0; i < nUnit; i++ {
+			switch i % 3 {
+			case 0:
+				in := c07.GenNames(rng)
+				units = append(units, genInput{Kind: "names", Names: &in})
+			case 1:
+				in := c07.GenPaths(rng)
+				units = append(units, genInput{Kind: "paths", Paths: &in})
+			default:
+				in := c07.GenAuth(rng)
+				units = append(units, genInput{Kind: "auth", Auth: &in})
+			}
+		}
+	}
+
+	// ---- histories through the real pipeline ----
+	reported := map[string]bool{}
+	for si, sc := range scens {
+		states, err := run(sc.opt, sc.h, -1)
+		input := genInput{Kind: "scenario", Scen: &c07.Scenario{Opt: sc.opt, History: world.EncodeHistory(sc.h), Origin: sc.origin}}
+		if err != nil {
+			res.Fail(hx.Failure{Key: "C07/pipeline-setup-error", What: err.Error(), Input: input})
+			continue
+		}
+		res.Count("histories_" + strings.SplitN(sc.origin, ":", 2)[0])
+		res.Count(fmt.Sprintf("history_batches=%d", len(sc.h)))
+		for bi, st := range states {
+			res.OracleChecks++
+			if st.applyErr != nil {
+				res.Count("update_error")
+				if !reported["C07/update-error"] {
+					reported["C07/update-error"] = true
+					res.Fail(hx.Failure{Key: "C07/update-error", What: fmt.Sprintf("batch %d: the update failed: %v", bi, st.applyErr), Input: input})
+				}
+			}
+			if st.scanErr != nil {
+				res.Fail(hx.Failure{Key: "C07/scan-error", What: st.scanErr.Error(), Input: input})
+				continue
+			}
+			canon, _ := json.Marshal(st.cfg)
+			nt := features(st.cfg, res)
+			res.Seen(string(canon), nt)
+			if si < 3 && bi == len(states)-1 {
+				res.Sample(5, map[string]interface{}{"origin": sc.origin, "options": sc.opt, "history": describe(sc.h), "written": st.cfg.Summary(), "findings": st.findings})
+			}
+			if !o.Search {
+				cfg, ok := st.cfg, len(st.findings) == 0
+				hist := sc.h[:bi+1]
+				opt := sc.opt
+				cw.Add(func(id int) string {
+					return fmt.Sprintf("(CCfg %s %s %s)", hx.N(id), cfg.Coq(), hx.Bool(ok))
+				}, map[string]interface{}{"kind": "scenario", "scenario": c07.Scenario{Opt: opt, History: world.EncodeHistory(hist)}, "batch": bi})
+			}
+			// findings: shrink the first history showing each cause
+			seenHere := map[string]bool{}
+			for _, f := range st.findings {
+				key := keyOf(f)
+				res.Count("finding_" + f.Kind)
+				if seenHere[key] {
+					continue
+				}
+				seenHere[key] = true
+				isCorpus := strings.HasPrefix(sc.origin, "corpus") || sc.origin == "replay"
+				if reported[key] && !isCorpus {
+					continue
+				}
+				reported[key] = true
+				h := sc.h[:bi+1]
+				min := h
+				if !isCorpus {
+					min = world.Shrink(h, func(x [][]pipeline.Change) bool {
+						sts, err := run(sc.opt, x, -1)
+						if err != nil {
+							return false
+						}
+						for _, s := range sts {
+							if _, ok := hasKey(s.findings, key); ok {
+								return true
+							}
+						}
+						return false
+					}, 150)
+				}
+				what := f.What
+				if sts, err := run(sc.opt, min, -1); err == nil {
+					for _, s := range sts {
+						if g, ok := hasKey(s.findings, key); ok {
+							what = g.What
+							break
+						}
+					}
+				}
+				res.Fail(hx.Failure{Key: key, What: what + " — history: " + strings.Join(describe(min), " / "),
+					Input:    genInput{Kind: "scenario", Scen: &c07.Scenario{Opt: sc.opt, History: world.EncodeHistory(min), Origin: sc.origin}},
+					Observed: c07.Kinds(st.findings)})
+			}
+		}
+	}
+
+	// ---- the generators on the real types ----
+	for ui, u := range units {
+		res.OracleChecks++
+		switch u.Kind {
+		case "names":
+			in := *u.Names
+			obs := c07.RunNames(in)
+			canon, _ := json.Marshal(in)
+			res.Seen("names:"+string(canon), len(in.Ops) >= 3)
+			res.Count("names_mode=" + in.Mode)
+			if ui < 9 {
+				res.Sample(8, map[string]interface{}{"names": in, "server_names": obs})
+			}
+			if d := c07.FirstDup(obs); d != "" {
+				res.Count("names_duplicate")
+				res.Fail(hx.Failure{Key: "C07/duplicate-server-name-AddEndpoint-" + in.Mode, What: fmt.Sprintf("server name %s generated twice: %v", d, obs), Input: u, Observed: obs})
+			}
+			if !o.Search {
+				cw.Add(func(id int) string { return c07.CoqNames(id, in, obs) }, u)
+			}
+		case "paths":
+			in := *u.Paths
+			keys, obs := c07.RunPaths(in)
+			canon, _ := json.Marshal(in)
+			res.Seen("paths:"+string(canon), len(in.Ops) >= 3)
+			res.Count(fmt.Sprintf("paths_over_99=%v", len(obs) > 99))
+			var ids []string
+			for _, p := range obs {
+				ids = append(ids, p[1])
+			}
+			if d := c07.FirstDup(ids); d != "" {
+				res.Fail(hx.Failure{Key: "C07/duplicate-path-id-AddBackendPath", What: fmt.Sprintf("path id %s generated twice", d), Input: u, Observed: obs})
+			}
+			if !o.Search {
+				cw.Add(func(id int) string { return c07.CoqPaths(id, keys, obs) }, u)
+			}
+		case "auth":
+			in := *u.Auth
+			obs, problems := c07.RunAuth(in)
+			canon, _ := json.Marshal(in)
+			res.Seen("auth:"+string(canon), len(in.Ops) >= 3)
+			for _, ob := range obs {
+				if ob.Port < 0 {
+					res.Count("auth_call_without_port")
+				} else {
+					res.Count("auth_call_port")
+				}
+			}
+			if ui < 9 {
+				res.Sample(8, map[string]interface{}{"auth": in, "trace": obs})
+			}
+			if len(problems) > 0 {
+				res.Fail(hx.Failure{Key: "C07/auth-proxy-port-AcquireAuthBackendName", What: strings.Join(problems, "; "), Input: u, Observed: obs})
+			}
+			if !o.Search {
+				cw.Add(func(id int) string { return c07.CoqAuth(id, in, obs) }, u)
+			}
+		}
+	}
+	cw.Flush()
+	res.Write(o)
 }
